@@ -53,7 +53,12 @@ func (m *Module) Write() error {
 	return nil
 }
 
-func (m *Module) Remove() { _ = os.RemoveAll(m.Dir) }
+func (m *Module) Remove() {
+	if os.Getenv("VERIF_KEEP") != "" {
+		return
+	}
+	_ = os.RemoveAll(m.Dir)
+}
 
 // AddUniverse writes the "in" and "out" packages of a universe (all declarations, grouped by package).
 func (m *Module) AddUniverse(u *space.Universe) {
